@@ -33,6 +33,9 @@ type Op13 struct {
 	// deadline: after the timeout the reader calls ReadFrom this many more times without touching
 	// the deadline - a deadline that has passed keeps failing reads until it is moved
 	Again int `json:"again,omitempty"`
+	// write: the peer's IPv4 address is passed in the other slice form (4 bytes where the case uses
+	// 16, and the other way round) - net.IPv4 / net.ParseIP give 16 bytes, To4 and most decoders 4
+	AltForm bool `json:"alt_form,omitempty"`
 }
 
 // C13Case is the replay format.
@@ -43,8 +46,8 @@ type C13Case struct {
 	Reader    bool     `json:"reader"`         // an application goroutine keeps calling ReadFrom
 	// ReuseAddr: the application keeps one *net.UDPAddr variable and re-fills it for every write
 	// (what it passes to WriteTo is its own to change afterwards)
-	ReuseAddr bool `json:"reuse_addr,omitempty"`
-	Ops       []Op13   `json:"ops"`
+	ReuseAddr bool   `json:"reuse_addr,omitempty"`
+	Ops       []Op13 `json:"ops"`
 }
 
 type c13Server struct {
@@ -462,11 +465,18 @@ func runC13Inner(c *C13Case) (res c13Result) { //nolint:cyclop,gocyclo,maintidx
 					peersUsed[1+(op.Peer+i)%5] = true
 				}
 				if w == 1 && c.ReuseAddr {
-					scratchAddr.IP, scratchAddr.Port = append(scratchAddr.IP[:0], dst.IP.To4()...), dst.Port
+					form := dst.IP.To4()
+					if op.AltForm {
+						form = dst.IP.To16()
+					}
+					scratchAddr.IP, scratchAddr.Port = append(scratchAddr.IP[:0], form...), dst.Port
 					out[i].dstStr = dst.String()
 					dst = scratchAddr
 				} else {
 					out[i].dstStr = dst.String()
+					if op.AltForm {
+						dst = &net.UDPAddr{IP: dst.IP.To4(), Port: dst.Port}
+					}
 				}
 				out[i].dst = dst
 				wg.Add(1)
@@ -870,6 +880,7 @@ func genC13(rt *rapid.T) *C13Case {
 			op.Peer = rapid.IntRange(0, 5).Draw(rt, "peer")
 			op.N = rapid.OneOf(rapid.IntRange(0, 40), rapid.IntRange(0, 1200)).Draw(rt, "n")
 			op.Writers = rapid.SampledFrom([]int{1, 1, 1, 2, 4}).Draw(rt, "writers")
+			op.AltForm = rapid.IntRange(0, 2).Draw(rt, "altForm") == 0
 		case "inbound":
 			op.Peer = rapid.IntRange(0, 5).Draw(rt, "peer")
 			op.N = rapid.IntRange(0, 60).Draw(rt, "n")
